@@ -91,6 +91,7 @@ func NewSuite(t *testing.T, nVal int) *Suite {
 // output: ops (input of the model driver), impl (observations of the implementation), stats
 
 type Out struct {
+	classCount map[string]int
 	ops, impl *bufio.Writer
 	fo, fi    *os.File
 	Stats     *Stats
@@ -158,8 +159,39 @@ func (o *Out) Count(bucket string) { o.Stats.Hist[bucket]++ }
 func (o *Out) Nontrivial(key string) { o.Stats.Distinct[key]++ }
 
 // Violate records a property-monitor violation on the implementation, with the current sequence as replay.
+// violationClass maps a description to its class: the text with numbers, hex strings and quoted parts removed, so that one
+// defect reported on many inputs cannot fill the buffer and hide another one (at most 3 replays are kept per class).
+func violationClass(desc string) string {
+	var b strings.Builder
+	inQuote := false
+	for _, r := range desc {
+		switch {
+		case r == '"' || r == '`':
+			inQuote = !inQuote
+		case inQuote:
+		case r >= '0' && r <= '9':
+		default:
+			b.WriteRune(r)
+		}
+	}
+	s := b.String()
+	if len(s) > 160 {
+		s = s[:160]
+	}
+	return s
+}
+
+func (o *Out) admit(desc string) bool {
+	if o.classCount == nil {
+		o.classCount = map[string]int{}
+	}
+	c := violationClass(desc)
+	o.classCount[c]++
+	return o.classCount[c] <= 3 && len(o.Stats.Violations) < 200
+}
+
 func (o *Out) Violate(desc string) {
-	if len(o.Stats.Violations) > 50 {
+	if !o.admit(desc) {
 		return
 	}
 	o.Stats.Violations = append(o.Stats.Violations, Violation{Desc: desc, Replay: append([]string{}, o.seq...)})
@@ -167,7 +199,7 @@ func (o *Out) Violate(desc string) {
 
 // ViolateWith records a violation with an explicit replay.
 func (o *Out) ViolateWith(desc string, replay []string) {
-	if len(o.Stats.Violations) > 50 {
+	if !o.admit(desc) {
 		return
 	}
 	o.Stats.Violations = append(o.Stats.Violations, Violation{Desc: desc, Replay: replay})
